@@ -62,6 +62,23 @@ Theorem C18_list_set : forall (A : Type) (emb : A -> value) l i x,
   rt_list_set (rep_list A emb l) i (emb x) = Ok (rep_list A emb (l_set l i x)).
 Proof. exact list_set_refines. Qed.
 
+(* SEVERAL LIVE LISTS: every history over a register file of lists, where `filter` / `map` build one list from
+   another, refines the plain model in which the result is an independent copy ... *)
+Theorem C18_multi_history : forall (A : Type) (emb : A -> value) (aeqb : A -> A -> bool),
+  (forall a b, rt_eq (emb a) (emb b) = aeqb a b) ->
+  forall ops rops regs, Forall2 (mop_rel A emb) ops rops ->
+  rt_mrun rops (rep_regs A emb regs) =
+  Ok (rep_regs A emb (fst (m_run A aeqb ops regs)), map (emb_obs A emb) (snd (m_run A aeqb ops regs))).
+Proof. exact multi_history_refines. Qed.
+
+(* ... and in that model an operation touches only its own register: what filter / map return shares no state
+   with the argument (the correspondence checks that the real preamble.lua behaves like this model on
+   histories that keep two or three containers alive) *)
+Theorem C18_multi_step_frame : forall (A : Type) (aeqb : A -> A -> bool) (op : mop A) regs r',
+  (match op with MOn _ r _ => r' <> r | MFilter _ dst _ _ | MMap _ dst _ _ => r' <> dst end) ->
+  nth r' (fst (m_step A aeqb op regs)) [] = nth r' regs [].
+Proof. exact multi_step_frame. Qed.
+
 (* ---- dicts and sets: every history, under key injectivity ---- *)
 
 Theorem C18_dict_history : forall (K V : Type) (embK : K -> value) (embV : V -> value) (keqb : K -> K -> bool),
@@ -243,6 +260,8 @@ Print Assumptions C18_list_history_values.
 Print Assumptions C18_list_history_ints.
 Print Assumptions C18_list_history_strs.
 Print Assumptions C18_list_set.
+Print Assumptions C18_multi_history.
+Print Assumptions C18_multi_step_frame.
 Print Assumptions C18_dict_history.
 Print Assumptions C18_dict_from_list.
 Print Assumptions C18_set_history.
